@@ -32,4 +32,50 @@ theorem natToStr_digits (n : Nat) : (natToStr n).all isDigitC = true ∧ natToSt
 
 theorem intToStr_nonneg (i : Int) (h : ¬ i < 0) : intToStr i = natToStr i.natAbs := by simp [intToStr, h]
 
+/-! ### what is written out denotes the value: `digitsVal (natToStr n) = n` -/
+
+theorem foldl_digits_acc (s : Str) (a : Nat) :
+    s.foldl (fun acc c => acc * 10 + (c.toNat - '0'.toNat)) a = a * 10 ^ s.length + digitsVal s := by
+  induction s generalizing a with
+  | nil => simp [digitsVal]
+  | cons c r ih =>
+    simp only [List.foldl_cons, List.length_cons, digitsVal]
+    rw [ih, ih (0 * 10 + (c.toNat - '0'.toNat))]
+    simp only [Nat.zero_mul, Nat.zero_add, Nat.pow_succ]
+    rw [Nat.add_mul, Nat.add_assoc, Nat.mul_assoc, Nat.mul_comm 10]
+
+theorem digitsVal_cons (c : Char) (s : Str) : digitsVal (c :: s) = (c.toNat - '0'.toNat) * 10 ^ s.length + digitsVal s := by
+  have := foldl_digits_acc s (0 * 10 + (c.toNat - '0'.toNat))
+  simpa [digitsVal] using this
+
+theorem digitChar_val (d : Nat) (h : d < 10) : (digitChar d).toNat - '0'.toNat = d := by
+  have : ∀ k, k < 10 → (digitChar k).toNat - '0'.toNat = k := by decide
+  exact this d h
+
+theorem natDigitsAux_val (fuel n : Nat) (acc : Str) (h : n < fuel) :
+    digitsVal (natDigitsAux fuel n acc) = n * 10 ^ acc.length + digitsVal acc := by
+  induction fuel generalizing n acc with
+  | zero => omega
+  | succ f ih =>
+    unfold natDigitsAux
+    split
+    · rename_i hlt
+      rw [digitsVal_cons, digitChar_val n hlt]
+    · rename_i hge
+      have hdiv : n / 10 < f := by omega
+      rw [ih (n / 10) _ hdiv, digitsVal_cons, digitChar_val (n % 10) (Nat.mod_lt _ (by decide))]
+      simp only [List.length_cons, Nat.pow_succ]
+      have := Nat.div_add_mod n 10
+      generalize 10 ^ acc.length = P
+      have e1 : n / 10 * (10 * P) = 10 * (n / 10) * P := by rw [← Nat.mul_assoc, Nat.mul_comm (n / 10) 10]
+      have e2 : n / 10 * (P * 10) = 10 * (n / 10) * P := by rw [Nat.mul_comm P 10, e1]
+      first
+        | rw [e1, ← Nat.add_assoc, ← Nat.add_mul, this]
+        | rw [e2, ← Nat.add_assoc, ← Nat.add_mul, this]
+
+/-- **the digits `str(n)` writes denote `n`** -/
+theorem digitsVal_natToStr (n : Nat) : digitsVal (natToStr n) = n := by
+  have := natDigitsAux_val (n + 1) n [] (by omega)
+  simpa [natToStr, digitsVal] using this
+
 end Duckling
